@@ -796,6 +796,107 @@ theorem get_WF {a r : Poly} :
     · cases h
     · cases h; exact ofList_WF _ _ _
 
+/-! ## equality test, invariant over mutation histories -/
+
+/-- `is_zero` -/
+theorem isZero_iff (a : Poly) : a.isZero = true ↔ ∀ i, a.e i = 0 := by
+  simp only [isZero, List.all_eq_true, beq_iff_eq]
+  constructor
+  · intro h i
+    by_cases hi : i < a.ival.length
+    · rw [e_lt a hi]; exact h _ (List.getElem_mem hi)
+    · exact e_ge a (by simpa [dim] using hi)
+  · intro h x hx
+    obtain ⟨i, hi, rfl⟩ := List.getElem_of_mem hx
+    rw [← e_lt a hi]; exact h i
+
+/-- `a == b` for reduced vectors over the same ring: true exactly when all coefficients agree (a missing one counts as 0) -/
+theorem eq_spec {a b : Poly} (ha : a.WF) (hb : b.WF) (hs : a.size = b.size) :
+    ∃ r, a.eq b = .ok r ∧ (r = true ↔ ∀ i, a.e i = b.e i) := by
+  have hra : ∀ i, a.size = 0 ∨ (0 ≤ a.e i ∧ a.e i < (2:Int)^a.size) := fun i => by
+    by_cases hk : a.size = 0
+    · exact Or.inl hk
+    · exact Or.inr (WF_e ha (Nat.pos_of_ne_zero hk) i)
+  have hrb : ∀ i, a.size = 0 ∨ (0 ≤ b.e i ∧ b.e i < (2:Int)^a.size) := fun i => by
+    by_cases hk : a.size = 0
+    · exact Or.inl hk
+    · right; have := WF_e hb (hs ▸ Nat.pos_of_ne_zero hk) i; rwa [← hs] at this
+  unfold Poly.eq
+  split
+  · rename_i hd
+    refine ⟨_, rfl, ?_⟩
+    simp only [List.all_eq_true, beq_iff_eq]
+    constructor
+    · intro h i
+      by_cases hi : i < a.ival.length
+      · have hi' : i < b.ival.length := by simp only [dim] at hd; omega
+        have := h (a.ival[i], b.ival[i]) (by
+          rw [List.mem_iff_getElem]
+          exact ⟨i, by simp only [List.length_zip]; omega, by simp⟩)
+        rw [e_lt a hi, e_lt b hi']
+        simp only at this; omega
+      · rw [e_ge a (by simpa [dim] using hi), e_ge b (by simp only [dim] at *; omega)]
+    · intro h p hp
+      obtain ⟨i, hi, rfl⟩ := List.getElem_of_mem hp
+      simp only [List.length_zip] at hi
+      have h1 : i < a.ival.length := by omega
+      have h2 : i < b.ival.length := by omega
+      have := h i
+      rw [e_lt a h1, e_lt b h2] at this
+      simp [this]
+  · obtain ⟨d, hdok⟩ := (binop_defined .sub a b).mpr hs
+    refine ⟨d.isZero, by simp [hdok, bind, Except.bind, pure, Except.pure], ?_⟩
+    rw [isZero_iff]
+    constructor
+    · intro h i
+      have := h i
+      rw [binop_coeff hdok] at this
+      exact (sub_eq_zero_iff (hra i) (hrb i)).mp this
+    · intro h i
+      rw [binop_coeff hdok]
+      exact (sub_eq_zero_iff (hra i) (hrb i)).mpr (h i)
+
+/-- assignments never change the ring or the dimension -/
+theorem setIdx_size {a r : Poly} {idx : List Int} {v : RVal} (h : a.setIdx idx v = .ok r) : r.size = a.size ∧ r.dim = a.dim := by
+  unfold setIdx at h
+  split at h
+  · split at h <;> exact setMany_size _ _ h
+  · exact setMany_size _ _ h
+
+/-- invariant over histories: any sequence of assignments and dimension changes applied to a reduced vector leaves a
+    reduced vector over the same ring -/
+theorem applyOps_WF : ∀ (ops : List MutOp) {a r : Poly}, a.WF → a.applyOps ops = .ok r → r.WF ∧ r.size = a.size
+  | [], a, r, ha, h => by cases h; exact ⟨ha, rfl⟩
+  | o :: os, a, r, ha, h => by
+    simp only [applyOps, bind, Except.bind] at h
+    cases h1 : a.applyOp o with
+    | error m => rw [h1] at h; cases h
+    | ok a' =>
+      rw [h1] at h
+      have hw : a'.WF ∧ a'.size = a.size := by
+        cases o with
+        | setInt i v =>
+          refine ⟨setInt_WF ha h1, ?_⟩
+          simp only [applyOp, setInt] at h1
+          split at h1
+          · cases h1; rfl
+          · cases h1
+        | setIdx idx v => exact ⟨setIdx_WF ha h1, (setIdx_size h1).1⟩
+        | setSlice s e st v =>
+          refine ⟨setSlice_WF ha h1, ?_⟩
+          simp only [applyOp, setSlice, bind, Except.bind] at h1
+          split at h1
+          · cases h1
+          · exact (setIdx_size h1).1
+        | setDim d =>
+          refine ⟨setDim_WF ha h1, ?_⟩
+          simp only [applyOp, setDim] at h1
+          split at h1
+          · cases h1
+          · cases h1; rfl
+      obtain ⟨hr, hsz⟩ := applyOps_WF os hw.1 h
+      exact ⟨hr, hsz.trans hw.2⟩
+
 /-! ## non-vacuity: the hypothesis sets are inhabited by non-trivial instances (and the operations compute) -/
 
 example : (ofList [200, 7, 300, -1] 8).WF ∧ (ofList [200, 7, 300, -1] 8).ival = [200, 7, 44, 255] :=
